@@ -2,6 +2,7 @@ package props
 
 import (
 	"fmt"
+	"sync"
 	"sort"
 	"strings"
 
@@ -548,6 +549,48 @@ func c07Run(c *fw.Ctx, i int) {
 		for x := range ownIDs {
 			if srcIDs[x] {
 				c.Violation("shared-node:DeepCopy:into-own-document", "a node object is reachable from both the source and its copy made into the same document: "+gen.Describe(x), payload)
+				break
+			}
+		}
+	}
+
+	// the same questions asked by several goroutines at once, the first time
+	// anything is asked of these nodes (whatever a comparison memoises on the
+	// nodes is filled in under contention): every answer is the sequential one
+	if i%3 == 0 {
+		sn, _ := c07Node(spec)
+		scp := c07Copy(sn)
+		want := [2]bool{gedcom.DeepEqual(sn, scp), gedcom.DeepEqual(scp, sn)}
+		pn, _ := c07Node(spec)
+		pcp := c07Copy(pn)
+		const workers = 8
+		got := make([][2]bool, workers)
+		var wg sync.WaitGroup
+		start := make(chan struct{})
+		for w := 0; w < workers; w++ {
+			wg.Add(1)
+			go func(w int) {
+				defer wg.Done()
+				<-start
+				if w%2 == 0 {
+					got[w][0] = gedcom.DeepEqual(pn, pcp)
+					got[w][1] = gedcom.DeepEqual(pcp, pn)
+				} else {
+					got[w][1] = gedcom.DeepEqual(pcp, pn)
+					got[w][0] = gedcom.DeepEqual(pn, pcp)
+				}
+			}(w)
+		}
+		close(start)
+		wg.Wait()
+		c.Count("parallel-evaluations", workers)
+		for w := range got {
+			if got[w] != want {
+				kind := "without-DATE"
+				if strings.Contains(c07KindSet(spec), "DATE") {
+					kind = "with-DATE"
+				}
+				c.Violation("parallel-evaluation-differs:"+kind, fmt.Sprintf("DeepEqual(tree, copy) / DeepEqual(copy, tree) asked by %d goroutines at once on freshly decoded nodes: goroutine %d got %v, the same question asked alone gets %v", workers, w, got[w], want), payload)
 				break
 			}
 		}
